@@ -222,43 +222,7 @@ func flippedSet2(s *soup2, out *model2d.Mesh) ([]int, bool) {
 	return fl, ok
 }
 
-func kindRn2(c *hlib.Ctx) {
-	var segs []*model2d.Segment
-	switch c.Rng.Intn(3) {
-	case 0:
-		segs = circle2(c, 3+c.Rng.Intn(12), model2d.XY(1, 1), 2)
-	default:
-		segs = nested2(c, true)
-	}
-	s := soupOfSegs(c, segs)
-	if c.Rng.Intn(4) != 0 {
-		k := 1 + c.Rng.Intn(1+len(s.segs)/2)
-		for i := 0; i < k; i++ {
-			j := c.Rng.Intn(len(s.segs))
-			s.segs[j] = [2]int{s.segs[j][1], s.segs[j][0]}
-		}
-	}
-	eps := []float64{1.0 / 1024, 1.0 / 256, 1e-3}[c.Rng.Intn(3)]
-	b := s.build()
-	var out string
-	st := watchdog(func() {
-		res, n := b.m.RepairNormals(eps)
-		fl, ok := flippedSet2(s, res)
-		if !ok {
-			out = "output-is-not-a-reorientation-of-the-input"
-			return
-		}
-		clean := res.Manifold() && len(res.InconsistentVertices()) == 0
-		out = fmt.Sprintf("flip=%s n=%d clean=%s", intsStr(fl), n, b01(clean))
-		if n > 0 {
-			c.Stat("rn2:flipped-something", 1)
-		}
-	})
-	if st != "ok" {
-		out = st
-	}
-	emit(c, "rn2", []string{s.iSection(), "E " + hlib.RatStr(eps), s.cSection()}, out)
-}
+// kindRn2: see probe.go.
 
 func kindRep2(c *hlib.Ctx) {
 	var segs []*model2d.Segment
